@@ -395,6 +395,34 @@ pub fn run(tier: Tier) -> i32 {
     });
     rep.stats.count("pattern_lists", list_total);
 
+    // (1c) lists made of ONE pattern only (alone and repeated): nothing else in the list can put a
+    //      needle into the other batch; patterns up to length 3 (thorough 4)
+    let single_total = count_upto(PAT_ALPHA.len(), if th { 4 } else { 3 });
+    run_family(&mut rep, &watch, 4, single_total, |i, st| {
+        let p = nth_string(&PAT_ALPHA, i);
+        for key in ["f", "all(f)", "of(f, 1)", "str(f)"] {
+            for n in 1..=2usize {
+                let mut v = base.clone();
+                let list = Y::Sequence(vec![Y::String(p.clone()); n]);
+                let mut mm = serde_yaml::Mapping::new();
+                mm.insert(Y::String(key.into()), list);
+                replace_at(&mut v, &["detection".to_string(), "A".to_string()], &Y::Mapping(mm));
+                let r = load_value(v);
+                st.transitions += 1;
+                st.evaluations += 1;
+                st.states += 1;
+                if let Err(msg) = r {
+                    st.push_violation(Violation {
+                        signature: sig_of_panic("load-list", &msg),
+                        witness: format!("loading A: {{{}: {:?} x{}}} panics: {}", key, p, n, msg),
+                        replay: json!({"kind":"load","rule_yaml": format!("detection:\n  A: {{{}: [{}]}}\n  condition: A\ntrue_positives: []\ntrue_negatives: []\n", serde_json::to_string(key).unwrap(), vec![serde_json::to_string(&p).unwrap(); n].join(", "))}),
+                    });
+                }
+            }
+        }
+    });
+    rep.stats.count("single_pattern_lists", single_total);
+
     // (2) condition strings: tokeniser alone, as a condition through the loader, as a mapping key
     let total = count_upto(COND_ALPHA.len(), cond_len);
     run_family(&mut rep, &watch, 2, total, |i, st| {
@@ -786,7 +814,7 @@ pub fn run(tier: Tier) -> i32 {
     rep.stats.sample(json!({"pattern":"i\"","layer":"into_identifier"}));
     rep.stats.sample(json!({"condition":"a(n)d ","layers":["tokenise","loader","mapping key"]}));
     rep.stats.sample(json!({"shape":"detection/A/g:=seq-mixed","layers":["from_value","from_str"]}));
-    rep.rule = "every string up to the length bound over an adversarial alphabet: as identifier pattern (into_identifier; and in lists of three through the loader under k / all(k) / str(k)), as condition text (tokeniser alone, loader) and as mapping key under three value shapes (parse_identifier); every token string up to the bound over the condition token alphabet through the loader; a skeleton rule with every node position replaced by every shape of a 42-shape alphabet (thorough: every pair of positions) through from_value and from_str; 11 depth-64 / length-2000 cases in a child process. Oracle: the call returns (Ok or Err) - no panic, no abort, and returns within 10 s (watchdog). non-trivial = inputs the layer accepts (the rest are rejections, which is the other legal outcome)".into();
+    rep.rule = "every string up to the length bound over an adversarial alphabet: as identifier pattern (into_identifier; and in lists of three, alone in a list and repeated in a list through the loader under k / all(k) / of(k,1) / str(k)), as condition text (tokeniser alone, loader) and as mapping key under three value shapes (parse_identifier); every token string up to the bound over the condition token alphabet through the loader; a skeleton rule with every node position replaced by every shape of a 42-shape alphabet (thorough: every pair of positions) through from_value and from_str; 11 depth-64 / length-2000 cases in a child process. Oracle: the call returns (Ok or Err) - no panic, no abort, and returns within 10 s (watchdog). non-trivial = inputs the layer accepts (the rest are rejections, which is the other legal outcome)".into();
     rep.assumptions = vec![
         "serde_yaml itself is trusted".into(),
         "nesting beyond 64 is out of scope".into(),
